@@ -178,3 +178,189 @@ func checkC19Duplicates(c *Ctx, n int) {
 		})
 	}
 }
+
+// collideFieldName (C12): an option in a nested group gets the Go field name (and type) of an option
+// of the enclosing group - the name both are written under in their sections of an INI file.
+func (g *gen) collideFieldName(sd *StructDesc) bool {
+	top, nested := topAndNested(sd)
+	var tops []*FieldDesc
+	for _, t := range top {
+		if t.Ty[0] != 'F' && !strings.Contains(t.Tag, "ini-name:") && !strings.Contains(t.Tag, "no-ini:") && !strings.Contains(t.Tag, "choice:") {
+			tops = append(tops, t)
+		}
+	}
+	if len(tops) == 0 || len(nested) == 0 {
+		return false
+	}
+	t, n := tops[g.r.Intn(len(tops))], nested[g.r.Intn(len(nested))]
+	var tags []string
+	for _, key := range []string{"long", "short"} {
+		if v, ok := tagValue(n.Tag, key); ok {
+			tags = append(tags, quoteTag(key, v))
+		}
+	}
+	if len(tags) == 0 {
+		return false
+	}
+	n.Name, n.Ty, n.Cb, n.Tag = t.Name, t.Ty, 0, strings.Join(tags, " ")
+	// (the nested struct may sit behind a nil pointer, where nothing can be stored beforehand)
+	n.Init = ""
+	t.Init = g.richInit(t.Ty)
+	return true
+}
+
+// checkC19Malformed: a well-formed declaration (options at the top, in a nested group, in a command;
+// positional arguments on the parser and in the command) in which the tag of ONE field - of any of
+// those kinds - is broken in a definite way (closing quote, opening quote or colon missing, a raw
+// newline in a value).  The declaration must be refused with ErrTag when it is added (or at the
+// first parse); the unbroken declaration is accepted.
+func checkC19Malformed(c *Ctx, n int) {
+	r := c.Rng
+	for i := 0; i < n; i++ {
+		f := func(name, ty, tag string) FieldDesc {
+			return FieldDesc{Name: name, Exported: true, Kind: "v", Ty: ty, Tag: tag}
+		}
+		st := func(name, tag string, fields ...FieldDesc) FieldDesc {
+			return FieldDesc{Name: name, Exported: true, Kind: "s", Sub: &StructDesc{Fields: fields}, Tag: tag}
+		}
+		cmdPos := st("CPos", `positional-args:"yes"`, f("P1", "str", `positional-arg-name:"p1" description:"first"`), f("Rest", "Lstr", `description:"the rest"`))
+		rootPos := st("Pos", `positional-args:"yes"`, f("Q", "str", `description:"q arg"`))
+		root := &StructDesc{Fields: []FieldDesc{
+			f("A", "str", `long:"alpha" description:"an option"`),
+			st("G", `group:"Inner" namespace:"in"`, f("B", "int", `long:"beta" short:"b"`)),
+			st("C", `command:"cmd" description:"a command"`, f("D", "bool", `long:"delta"`), cmdPos),
+			rootPos,
+		}}
+		// the field whose tag is broken
+		type target struct {
+			what string
+			fd   *FieldDesc
+		}
+		targets := []target{
+			{"option at the top", &root.Fields[0]},
+			{"group field", &root.Fields[1]},
+			{"option in a nested group", &root.Fields[1].Sub.Fields[0]},
+			{"command field", &root.Fields[2]},
+			{"option in a command", &root.Fields[2].Sub.Fields[0]},
+			{"positional-args field of a command", &root.Fields[2].Sub.Fields[1]},
+			{"positional argument of a command", &root.Fields[2].Sub.Fields[1].Sub.Fields[0]},
+			{"trailing positional argument of a command", &root.Fields[2].Sub.Fields[1].Sub.Fields[1]},
+			{"positional-args field of the parser", &root.Fields[3]},
+			{"positional argument of the parser", &root.Fields[3].Sub.Fields[0]},
+		}
+		tg := targets[r.Intn(len(targets))]
+		how := []string{"closing quote missing", "colon missing", "opening quote missing", "raw newline in a value", "control: unbroken"}[r.Intn(5)]
+		tag := tg.fd.Tag
+		switch how {
+		case "closing quote missing":
+			tag = tag[:len(tag)-1]
+		case "colon missing":
+			tag = strings.Replace(tag, ":\"", "\"", 1)
+		case "opening quote missing":
+			tag = strings.Replace(tag, ":\"", ":", 1)
+		case "raw newline in a value":
+			at := strings.Index(tag, ":\"") + 3
+			tag = tag[:at] + "\n" + tag[at:]
+		}
+		tg.fd.Tag = tag
+		cs := &Case{Name: "app", NsDelim: ".", EnvNsDelim: "_"}
+		cs.Build = []BuildOp{{Kind: "addgroup", Target: 1, Short: "Application Options", Struct: root},
+			{Kind: "setcmd", Target: 1, Attr: "subopt", Vals: []string{"1"}}}
+		cs.Ops = []Op{{Kind: "model"}, {Kind: "parse", Args: []string{}}}
+		cs.Description = fmt.Sprintf("tag of the %s: %s (%q): %s", tg.what, how, tag, describeOps(cs))
+		c.RunCases([]*Case{cs}, func(cr *CaseResult) {
+			c.classifyCase(cr)
+			c.Class("c19/malformed " + tg.what + ": " + how)
+			c.Distinct(cs.Description)
+			build, ret := "", ""
+			for _, l := range cr.Impl {
+				if strings.HasPrefix(l, "R ") && build == "" {
+					build = l
+				}
+				if strings.HasPrefix(l, "RET ") && ret == "" {
+					ret = l
+				}
+				if strings.HasPrefix(l, "HARNESS-PANIC") || strings.HasPrefix(l, "PANIC") {
+					build = l
+				}
+			}
+			isTag := func(l, pre string) bool {
+				ws := strings.Fields(l + " x x x")
+				return ws[0] == pre && ws[1] == "flags" && ws[2] == strconv.Itoa(int(flags.ErrTag))
+			}
+			var ok bool
+			want := "ErrTag when the declaration is added or first used"
+			if how == "control: unbroken" {
+				ok = build == "R ok" && strings.HasPrefix(ret, "RET ok")
+				want = "accepted"
+			} else {
+				ok = isTag(build, "R") || (build == "R ok" && isTag(ret, "RET"))
+			}
+			in := map[string]interface{}{"case": cs.Description, "field": tg.what, "fault": how, "tag": tag}
+			if !ok {
+				in["case_file"] = c.saveCase(cr)
+			}
+			c.Check("malformed-tag-is-refused-at-setup", ok, "C19:malformed", in, decodeLine(build)+" / "+decodeLine(ret), want)
+		})
+	}
+}
+
+// commandFields: the command-tagged fields of a struct (one level)
+func commandFields(sd *StructDesc) []*FieldDesc {
+	var out []*FieldDesc
+	for i := range sd.Fields {
+		if sd.Fields[i].Sub != nil && strings.Contains(sd.Fields[i].Tag, "command:\"") {
+			out = append(out, &sd.Fields[i])
+		}
+	}
+	return out
+}
+
+// collideTiedCommands (C15): the sibling commands at the top get names at one and the same distance
+// from the word "bet", so that which of them is nearest is a tie.
+func (g *gen) collideTiedCommands(sd *StructDesc) bool {
+	for k := 0; len(commandFields(sd)) < 2; k++ {
+		sd.Fields = append(sd.Fields, FieldDesc{Name: fmt.Sprintf("Tied%d", k), Exported: true, Kind: "s", Sub: &StructDesc{}, Tag: quoteTag("command", "tied")})
+	}
+	cmds := commandFields(sd)
+	names := []string{"get", "set", "let", "net", "bat", "bed"}
+	g.r.Shuffle(len(names), func(a, b int) { names[a], names[b] = names[b], names[a] })
+	for i, f := range cmds {
+		if i >= len(names) {
+			break
+		}
+		f.Tag = tagReplace(f.Tag, "command", names[i])
+		// (aliases could break the tie)
+		var out []string
+		for _, p := range splitTagPairs(f.Tag) {
+			if !strings.HasPrefix(p, "alias:\"") {
+				out = append(out, p)
+			}
+		}
+		f.Tag = strings.Join(out, " ")
+	}
+	return true
+}
+
+// collidePrefixCommands (C13): of two sibling commands the later one is named by the earlier one's
+// name plus a suffix (add / add-all), at any level of the tree.
+func (g *gen) collidePrefixCommands(sd *StructDesc) bool {
+	done := false
+	var walk func(s *StructDesc)
+	walk = func(s *StructDesc) {
+		cmds := commandFields(s)
+		if len(cmds) >= 2 && !done {
+			a := g.r.Intn(len(cmds) - 1)
+			b := a + 1 + g.r.Intn(len(cmds)-a-1)
+			if base, ok := tagValue(cmds[a].Tag, "command"); ok && base != "" && !strings.ContainsAny(base, ".]") {
+				cmds[b].Tag = tagReplace(cmds[b].Tag, "command", base+[]string{"-all", "s", "2", "x-y"}[g.r.Intn(4)])
+				done = true
+			}
+		}
+		for _, f := range cmds {
+			walk(f.Sub)
+		}
+	}
+	walk(sd)
+	return done
+}
